@@ -75,6 +75,7 @@ func main() {
 		fmt.Fprintln(os.Stderr, "usage: pslint -prop C07 [-tier quick|thorough] [-root /repo]")
 		os.Exit(2)
 	}
+	verifDirGlobal = *verif
 	start := time.Now()
 	abs, _ := filepath.Abs(*root)
 	w, err := LoadWorld(abs)
